@@ -1349,8 +1349,33 @@ def oracle(ctx, h, impl):
     return judged
 
 
+def translate_and_prove(ctx, groups):
+    """T1 + proof obligations: regenerate the translator groups from the working tree, then re-check the theorems (which
+    include `model = generated definition`).  A group that no longer translates, or a theorem that no longer checks against
+    the regenerated definitions, is a broken tie.  coq/Gen is shared by all checks: if another process regenerated the group
+    from another tree while the theorems were being checked, the step is repeated."""
+    sys.path.insert(0, os.path.join(vlib.TOOLS, "c2g"))
+    import genall
+    r = None
+    for attempt in range(3):
+        st = genall.run(list(groups))
+        nb, ob, di = len(ctx.broken), ctx.cov["obligations"], ctx.cov["discharged"]
+        for g, s_ in st.items():
+            ctx.log("c2g", g, s_)
+            if s_.startswith("FAILED"):
+                ctx.tie_broken("translator group " + g, s_)
+        r = ctx.props()
+        st2 = genall.run(list(groups))
+        if not any("(changed)" in v for v in st2.values()):
+            return r
+        ctx.log("coq/Gen was regenerated by another process during the proof step: repeating")
+        del ctx.broken[nb:]
+        ctx.cov["obligations"], ctx.cov["discharged"] = ob, di
+    return r
+
+
 def run(ctx):
-    ctx.props()
+    translate_and_prove(ctx, ["OptionsC17"])
     v = ctx.variant(mpi="off", san=True)
     exe = ctx.cc([os.path.join(vlib.TOOLS, "harness", "c17_harness.c")], os.path.join(ctx.scratch, "c17_harness"), v, extra=["-Wl,--wrap=getopt_long"])
     tmpdir = os.path.join(ctx.scratch, "files")
@@ -1486,7 +1511,8 @@ def run(ctx):
     ctx.notes["roundtrip_guard_true_false"] = nguard
     for h in hs[:: max(1, len(hs) // 5)][:5]:
         ctx.sample({"history": h.hid, "tags": sorted(h.tags), "ops": [l[:80] for l in h.lines[-6:-1]]})
-    ctx.cov["trusted_base"] = ["getopt_long of libc is an oracle: model and library consume the recorded event stream; GetoptModel.v is validated against it",
+    ctx.cov["trusted_base"] = ["T1: the range rules of the int / size_t / double conversions (.ini reader and command line), the boolean spellings, the switch increment, the getopt reset, the colon test of the loader and the heading / prefix decisions of sc_options_save are proved EQUAL to Gen/OptionsC17.v, regenerated from the working tree on every run (tools/c2g + tools/c2g/slicelib.py + clang-14 JSON AST trusted; strtol / strtod / strspn / strncmp / strrchr results and HUGE_VAL are symbolic parameters)",
+                               "getopt_long of libc is an oracle: model and library consume the recorded event stream; GetoptModel.v is validated against it",
                                "strtod / \"%.16g\" of libc are oracle tables (Section variables in the theorems)",
                                "strtol model of OptionsModel.v: validated against libc on every run (op strtol) and through every int/size_t option",
                                "isspace/tolower/sscanf of libc in the \"C\" locale as transcribed in ini_line"]
